@@ -175,6 +175,7 @@ void NifFile::Clear() {
 
 	blocks.clear();
 	hdr.Clear();
+	hdr.SetBlockReference(&blocks);
 }
 
 int NifFile::Load(const std::filesystem::path& fileName, const NifLoadOptions& options) {
